@@ -93,7 +93,7 @@ Lemma helpers_dead : forall h l b cs, data l = Some b -> nth_error h b = Some (m
 Proof.
   intros h l b cs D N. repeat split.
   - intros i. unfold list_get. destruct (list_index l i <? 0)%Z; auto.
-    unfold hread. rewrite D, N. simpl. auto.
+    unfold hread. rewrite D, N. simpl. destruct (_ <? length cs); auto.
   - intros v. unfold list_append, alloc.
     assert (Hb : b < length h) by (apply nth_error_Some; congruence).
     destruct (size l) as [|n] eqn:S.
@@ -101,7 +101,8 @@ Proof.
       rewrite hwrite_new by (simpl; lia). cbn [rbind].
       unfold hfree. rewrite D.
       rewrite nth_error_app_old by auto. rewrite N. simpl. eauto.
-    + simpl copy_loop. unfold hread at 1. rewrite D. rewrite nth_error_app_old by auto. rewrite N. simpl. eauto.
+    + simpl copy_loop. unfold hread at 1. rewrite D. rewrite nth_error_app_old by auto. rewrite N. simpl.
+      destruct (0 <? length cs); simpl; eauto.
   - intros s. unfold list_assign. rewrite D. unfold hfree. rewrite N. reflexivity.
 Qed.
 
